@@ -9,6 +9,7 @@ import (
 
 	"github.com/ethereum/go-ethereum/common"
 	"github.com/ethereum/go-ethereum/common/hexutil"
+	"github.com/ethereum/go-ethereum/crypto"
 	"github.com/holiman/uint256"
 	"verif/asm"
 	"verif/fw"
@@ -214,6 +215,24 @@ func c09Slots() []*uint256.Int {
 	return []*uint256.Int{uint256.NewInt(0), uint256.NewInt(1), uint256.NewInt(5), uint256.NewInt(255), new(uint256.Int).Lsh(uint256.NewInt(1), 64), h1, h2}
 }
 
+// c09CarrySlots are small slots whose data-slot base keccak256(pad32(slot)) ends in ..fd, ..ff, ..fe, ..ffff, ..fffe,
+// ..feff, ..fffffe, ..ffffff (found by cmd/mineslots): the data slots of a 2-5 word string stored there cross one, two
+// or three byte boundaries of the slot counter. The suffixes are re-verified on every run.
+var c09CarrySlots = []struct {
+	Slot   uint64
+	Suffix []byte
+}{{14, []byte{0xfd}}, {165, []byte{0xff}}, {284, []byte{0xfe}}, {17573, []byte{0xff, 0xff}}, {81056, []byte{0xff, 0xfe}}, {88193, []byte{0xfe, 0xff}},
+	{12981658, []byte{0xff, 0xff, 0xfe}}, {34983319, []byte{0xff, 0xff, 0xff}}}
+
+func c09VerifyCarrySlots() {
+	for _, c := range c09CarrySlots {
+		base := crypto.Keccak256(common.BigToHash(new(big.Int).SetUint64(c.Slot)).Bytes())
+		if !bytes.HasSuffix(base, c.Suffix) {
+			panic(fmt.Sprintf("carry slot %d: base %x does not end in %x", c.Slot, base, c.Suffix))
+		}
+	}
+}
+
 func c09WordsFor(thorough bool) []common.Hash {
 	w := c09Words()
 	if thorough {
@@ -267,6 +286,33 @@ func c09ForEach(w *fw.W, fn func(c *c09Case)) {
 	bigs := []*uint256.Int{uint256.NewInt(256), new(uint256.Int).SetUint64(^uint64(0)), new(uint256.Int).Lsh(uint256.NewInt(1), 64), new(uint256.Int).SetAllOne()}
 	ow = append(ow, bigs...)
 	slots := c09Slots()
+	// carry slots: long strings whose data slots cross byte boundaries of the slot counter
+	c09VerifyCarrySlots()
+	for _, f := range forks {
+		cvs := []variant{{"direct", false, false}}
+		if th && f >= world.Byzantium {
+			cvs = append(cvs, variant{"delegatecall", false, false})
+		}
+		for _, v := range cvs {
+			for _, cs := range c09CarrySlots {
+				maxLen := 130
+				if th {
+					maxLen = 300
+				}
+				for n := 33; n <= maxLen; n++ {
+					if !w.Mine() {
+						continue
+					}
+					if w.Expired() {
+						return
+					}
+					slot := uint256.NewInt(cs.Slot)
+					fn(&c09Case{Kind: "ref", Fork: f, Via: v.Via, Static: v.Static, Fresh: v.Fresh, Slot: hb(slot), Data: gen.PatternBytes(n),
+						Note: fmt.Sprintf("ref %s via=%s carry slot=%d (data-slot base ends in %x) len=%d", f, v.Via, cs.Slot, cs.Suffix, n)})
+				}
+			}
+		}
+	}
 	for _, f := range forks {
 		if f < world.Byzantium {
 			variants = []variant{{"direct", false, false}, {"direct", false, true}}
@@ -341,7 +387,7 @@ func init() {
 		ID:        "C09",
 		Level:     "model_checking",
 		Technique: "complete enumeration of (storage word, offset, width) and (string length, content pattern, slot) products, each journaled by a generated program on the real interpreter (direct, DELEGATECALL, CALLCODE, static, value written just before), compared with a reference Solidity storage-layout decoder",
-		Rule: "value journal: 5 words x every (offset, width) in ([0,34] + {256, 2^64-1, 2^64, 2^256-1})^2 x 7 slots (small, 2^64, hashed, hashed with leading zero byte) x variants {direct, static, SSTORE-just-before, via DELEGATECALL, via CALLCODE with fresh store, static+DELEGATECALL}; reference journal: every length 0..130 x {distinct, leading zeros, all zero, trailing zero} x slots x variants + 10 invalid/unusual head words. The code account of the DELEGATECALL/CALLCODE variants holds complemented words at the same slots. Oracle: recorded bytes (by name and by slot) == reference decoder applied to the executing contract's storage at the journal step; invalid field/encoding => frame fails and nothing is recorded. non-trivial = distinct cases whose operands/encoding are valid (a value must be recorded)",
+		Rule: "value journal: 5 words x every (offset, width) in ([0,34] + {256, 2^64-1, 2^64, 2^256-1})^2 x 7 slots (small, 2^64, hashed, hashed with leading zero byte) x variants {direct, static, SSTORE-just-before, via DELEGATECALL, via CALLCODE with fresh store, static+DELEGATECALL}; reference journal: every length 0..130 x {distinct, leading zeros, all zero, trailing zero} x slots x variants + 10 invalid/unusual head words + every length 33..130 at 8 slots whose data-slot base ends in fd/fe/ff/ffff/fffe/feff/fffffe/ffffff (the slot counter carries over 1-3 bytes). The code account of the DELEGATECALL/CALLCODE variants holds complemented words at the same slots. Oracle: recorded bytes (by name and by slot) == reference decoder applied to the executing contract's storage at the journal step; invalid field/encoding => frame fails and nothing is recorded. non-trivial = distinct cases whose operands/encoding are valid (a value must be recorded)",
 		Assumptions: []string{"strings longer than 130 bytes and storage words outside the 5-word alphabet are not covered", "quick tier thins slots/words for the indirect variants (bounds in evidence)"},
 		Bounds: func(t string) map[string]any {
 			return map[string]any{"offset_width_values": 39, "string_lengths": map[string]string{"quick": "0..130", "thorough": "0..300"}[t], "slots": 7, "forks": map[string]int{"quick": 1, "thorough": 4}[t]}
